@@ -25,6 +25,22 @@ pub fn syms_from_files(paths: &str) -> Vec<PartialDSym> {
     out
 }
 
+/// the prism family written by Gen_Prism: (2-D euclidean symbol as JSON, prism symbol over it); every prism symbol
+/// and every connected cover of it with up to `sheets` sheets is euclidean by construction
+pub fn prism_family(paths: &str, sheets: usize) -> Vec<(Value, PartialDSym)> {
+    let mut out = vec![];
+    for p in paths.split(',').filter(|p| !p.is_empty()) {
+        for j in read_lines(p) {
+            let sym = dsym_from_json(&j["sym"]);
+            if sheets >= 2 {
+                for c in catch(|| covers(&sym, sheets)).unwrap_or_default() { if c.size() > sym.size() { out.push((j["prism_of"].clone(), c)); } }
+            }
+            out.push((j["prism_of"].clone(), sym));
+        }
+    }
+    out
+}
+
 pub fn all_v(j: &Value) -> bool {
     j["v"].as_array().unwrap().iter().all(|r| r.as_array().unwrap().iter().all(|x| x.as_u64() != Some(0)))
 }
